@@ -758,3 +758,71 @@ def check_read_loop(ctx):
               f'{n_loops} while loop(s) in the reader modules, {n_read} of '
               f'them read a file; canary: positive flagged, negatives '
               f'silent', nontrivial=False)
+
+
+# -------------------------------------------------------- END-FLAG-TERM ---
+
+def _implies_terminated(test, pol, var):
+    """(test == pol) implies that `var` ends with a newline."""
+    if isinstance(test, ast.UnaryOp) and isinstance(test.op, ast.Not):
+        return _implies_terminated(test.operand, not pol, var)
+    if isinstance(test, ast.Call) and call_name(test) == 'endswith' and \
+            dotted(receiver(test)) == var and test.args:
+        arg = test.args[0]
+        nl = (isinstance(arg, ast.Constant) and arg.value in (
+            '\n', '\r\n')) or dotted(arg) == 'os.linesep' or (
+                isinstance(arg, ast.Tuple) and all(
+                    isinstance(e, ast.Constant) and e.value in ('\n',
+                                                                '\r\n')
+                    for e in arg.elts))
+        return nl and pol
+    if isinstance(test, ast.Compare) and len(test.ops) == 1 and \
+            isinstance(test.comparators[0], ast.Constant) and \
+            test.comparators[0].value == '\n' and isinstance(
+                test.left, ast.Subscript) and dotted(
+                    test.left.value) == var:
+        return isinstance(test.ops[0], ast.Eq) if pol else \
+            isinstance(test.ops[0], ast.NotEq)
+    if isinstance(test, ast.BoolOp):
+        if isinstance(test.op, ast.And) and pol:
+            return any(_implies_terminated(v, True, var)
+                       for v in test.values)
+        if isinstance(test.op, ast.Or) and not pol:
+            return any(_implies_terminated(v, False, var)
+                       for v in test.values)
+    return False
+
+
+def check_end_flag_terminated(ctx):
+    """A listing "cut at any byte" can be cut inside the digits of the value
+    printed on the end-flag line (` simulation time (s): 24` -> `... 2`): the
+    line then still matches the flag, the edition looks complete and carries
+    a wrong time.  The only trace of the cut is the missing end of line, so
+    the function that recognises an end flag may answer positively only on
+    paths where the line is known to end with a newline."""
+    from . import verdict as V
+    program = ctx.program
+    scanner = program.cls(SCAN + ':Scanner')
+    meth = scanner.methods.get('_is_end_flag')
+    if meth is None:
+        raise AnalysisError('Scanner._is_end_flag not found')
+    program.consulted.add(meth.module.relpath)
+    var = [p for p in meth.params if p != 'self'][0]
+    n = 0
+    for ret in walk_local(meth.node):
+        if not isinstance(ret, ast.Return) or ret.value is None or (
+                isinstance(ret.value, ast.Constant) and
+                ret.value.value in (None, False)):
+            continue
+        n += 1
+        conds = V.path_condition(meth.node, ret)
+        ok = any(_implies_terminated(t, p, var) for t, p in conds)
+        ctx.decide('END-FLAG-TERM', meth,
+                   f'_is_end_flag: return {txt(ret.value)[:40]} only for a '
+                   f'line with its end of line', ok, at=meth.where(ret),
+                   detail=None if ok else
+                   'the last line of a listing killed while it was written '
+                   'has no end of line and its value may be cut: accepted '
+                   'as an end flag, it closes an edition with a truncated '
+                   'time (found on the shipped code: F22)')
+    ctx.floor('END-FLAG-TERM', n, 1, 'positive returns of _is_end_flag')
